@@ -19,6 +19,13 @@ class Impl:
         self.order = self.model.get_species_list()
         self.perm = [self.order.index(s) for s in spec['species']]
         self.x0 = state_vector(self.model, {s: spec['x0'].get(s, 0) for s in spec['species']})
+        self.sims = {}      # one simulator object per kind, re-used for every run of this configuration
+
+    def sim(self, name):
+        if name not in self.sims:
+            import bioscrape.simulator as BS
+            self.sims[name] = getattr(BS, name)()
+        return self.sims[name]
 
     def start(self, x0=None, t0=0.0, dt=None):
         xv = self.x0 if x0 is None else state_vector(self.model, x0)
@@ -34,7 +41,7 @@ class Impl:
         from bioscrape.simulator import SSASimulator
         self.start(x0, t0, dt)
         with Stream(us) as st:
-            res = SSASimulator().py_simulate(self.iface, np.array(times, dtype=float))
+            res = self.sim('SSASimulator').py_simulate(self.iface, np.array(times, dtype=float))
         out = dict(rows=self.rows(res.py_get_result()), consumed=st.consumed, overrun=st.overrun)
         self.start()   # restore the model's initial condition (shared array)
         return out
@@ -78,7 +85,7 @@ def run_delay(impl, us, times, qdt, ncols, x0=None, t0=0.0, dt=None, template=No
     nr = len(impl.spec['reactions'])
     q = template.py_copy() if template is not None else ArrayDelayQueue.setup_queue(nr, ncols, qdt)
     with Stream(us) as st:
-        res = DelaySSASimulator().py_delay_simulate(impl.iface, q, np.array(times, dtype=float))
+        res = impl.sim('DelaySSASimulator').py_delay_simulate(impl.iface, q, np.array(times, dtype=float))
     fq = res.py_get_delay_queue()
     nqt = fq.py_get_next_queue_time()
     out = dict(rows=impl.rows(res.py_get_result()), consumed=st.consumed, overrun=st.overrun,
@@ -101,7 +108,7 @@ def run_volume(impl, us, times, vdt, vspec, x0=None, t0=0.0, volume_obj=None):
     impl.start(x0, t0, vdt)
     v = volume_obj if volume_obj is not None else make_volume(vspec)[0]
     with Stream(us) as st:
-        res = VolumeSSASimulator().py_volume_simulate(impl.iface, v, np.array(times, dtype=float))
+        res = impl.sim('VolumeSSASimulator').py_volume_simulate(impl.iface, v, np.array(times, dtype=float))
     out = dict(rows=impl.rows(res.py_get_result()), consumed=st.consumed, overrun=st.overrun,
                vols=[float(z) for z in res.py_get_volume()], divided=bool(res.py_cell_divided()),
                times=[float(z) for z in res.py_get_timepoints()])
